@@ -41,7 +41,9 @@ Definition sc0 : schema :=
      mkDef (b "4") true [(123,1);(36,2)] [36];
      mkDef (b "5") true [(58,1)] [];
      mkDef (b "A") true [(98,1);(108,2);(141,5)] [98;108];
-     mkDef (b "D") false [(1,6);(11,3);(21,10);(55,20);(54,40);(60,42);(38,43);(40,45);(44,46);(58,63)] [11;21;40;54;55;60]]
+     mkDef (b "D") false [(1,6);(11,3);(21,10);(55,20);(54,40);(60,42);(38,43);(40,45);(44,46);(58,63)] [11;21;40;54;55;60];
+     (* an APPLICATION type of two characters whose first character is that of the Heartbeat (schema utest2c) *)
+     mkDef (b "0X") false [(11,1);(58,2)] [11]]
     [b "D"] [].
 
 Definition dec0 := simple_decode sc0 [].
@@ -143,7 +145,8 @@ Definition ctx0 : F8.Codec.Meta.ctx :=
                                             tr 21 7 10 true false false false; tr 38 10 43 false false false false;
                                             tr 40 7 45 true false false false; tr 44 11 46 false false false false;
                                             tr 54 7 40 true false false false; tr 55 15 20 true false false false;
-                                            tr 58 15 63 false false false false; tr 60 22 42 true false false false]) ]
+                                            tr 58 15 63 false false false false; tr 60 22 42 true false false false]);
+      F8.Codec.Meta.mkMD (b "0X") false (gm [tr 11 15 1 true false false false; tr 58 15 2 false false false false]) ]
     hdr F8.Codec.Example.ex_trailer
     [ (1, (8, b "FIX.4.2")); (2, (9, b "0")); (3, (35, [])) ]
     [ (3, (10, [])) ]
@@ -158,3 +161,11 @@ Definition raw_d34 : list N :=
             bb ("34","7"); bb ("52",T)] ++ map bb order).
 Definition ops_d34 : list op := [start_I; OIn [logon "1"]; OIn [raw_d34]].
 Definition run0c (ops : list op) : trace := run_history19 sc0 dec0c fl0 ops.
+
+(* a two-character application message in sequence: delivered (Session::process: msgtype.size() > 1 goes to the
+   application whatever the first character is); the same trace with the DELIVER events removed (what a session
+   that sends "0X" to the Heartbeat handler produces) is rejected by the oracle *)
+Definition raw_0x : list N := mk_raw [("35","0X");("49","SRV");("56","CLI");("34","2");("52",T);("11","a")].
+Definition ops_0x : list op := [start_I; OIn [logon "1"]; OIn [raw_0x]].
+Definition drop_delivers (tr : trace) : trace :=
+  map (fun st => mkStep (filter (fun e => negb (is_deliver e)) (st_events st)) (st_snap st)) tr.
